@@ -21,6 +21,7 @@ import (
 	"time"
 
 	"github.com/google/badwolf/storage"
+	"github.com/google/badwolf/storage/memoization"
 	"github.com/google/badwolf/storage/memory"
 	"github.com/google/badwolf/triple"
 	"github.com/google/badwolf/triple/node"
@@ -38,7 +39,7 @@ type Call struct {
 }
 
 type Fault struct {
-	Mode string `json:"mode"` // before | after | write
+	Mode string `json:"mode"` // before | after | write | late (deliver j, close, linger, then report the error)
 	J    int    `json:"j"`
 }
 
@@ -109,24 +110,31 @@ func (s *fstore) GraphNames(ctx context.Context, names chan<- string) error {
 	if f == nil {
 		return s.inner.GraphNames(ctx, names)
 	}
-	defer close(names)
-	if f.Mode != "after" {
-		return errInjected
-	}
-	tmp := make(chan string, 64)
-	go s.inner.GraphNames(ctx, tmp)
-	var all []string
-	for n := range tmp {
-		all = append(all, n)
-	}
-	sort.Strings(all)
-	for i, n := range all {
-		if i >= f.J {
-			break
+	if f.Mode == "after" || f.Mode == "late" {
+		tmp := make(chan string, 64)
+		go s.inner.GraphNames(ctx, tmp)
+		var all []string
+		for n := range tmp {
+			all = append(all, n)
 		}
-		names <- n
+		sort.Strings(all)
+		for i, n := range all {
+			if i >= f.J {
+				break
+			}
+			names <- n
+		}
 	}
+	close(names)
+	f.linger()
 	return errInjected
+}
+
+// linger: a real driver does not return in the same instant it closes its channel (mode "late")
+func (f *Fault) linger() {
+	if f.Mode == "late" {
+		time.Sleep(time.Duration(2+5*f.J) * time.Millisecond)
+	}
 }
 
 type fgraph struct {
@@ -142,13 +150,14 @@ func (g *fgraph) write(kind string, ts []*triple.Triple, f func([]*triple.Triple
 	if ft == nil {
 		return f(ts)
 	}
-	if ft.Mode == "after" {
+	if ft.Mode == "after" || ft.Mode == "late" {
 		n := ft.J
 		if n > len(ts) {
 			n = len(ts)
 		}
 		f(ts[:n])
 	}
+	ft.linger()
 	return errInjected
 }
 
@@ -173,19 +182,19 @@ func stream[T any](g *fgraph, method string, out chan<- T, call func(chan<- T) e
 	if f == nil {
 		return call(out)
 	}
-	defer close(out)
-	if f.Mode != "after" {
-		return errInjected
-	}
-	tmp := make(chan T, 16)
-	go call(tmp)
-	i := 0
-	for x := range tmp {
-		if i < f.J {
-			out <- x
+	if f.Mode == "after" || f.Mode == "late" {
+		tmp := make(chan T, 16)
+		go call(tmp)
+		i := 0
+		for x := range tmp {
+			if i < f.J {
+				out <- x
+			}
+			i++
 		}
-		i++
 	}
+	close(out)
+	f.linger()
 	return errInjected
 }
 
@@ -245,6 +254,7 @@ type Run struct {
 	After   map[string][]VTriple `json:"after"`
 	GorDiff int                  `json:"goroutines_left"`
 	Millis  int64                `json:"ms"`
+	Memo    bool                 `json:"memo,omitempty"` // executed through memoization.New(failing driver)
 }
 type SchedEntry struct {
 	Call
@@ -274,23 +284,30 @@ func settle(before int) int {
 }
 
 func oneRun(ctx context.Context, prefix []string, s VStmt, bulk int, sched []SchedEntry, b *Blanks) Run {
+	return oneRunOn(ctx, prefix, s, bulk, sched, b, false)
+}
+
+func oneRunOn(ctx context.Context, prefix []string, s VStmt, bulk int, sched []SchedEntry, b *Blanks, memo bool) Run {
 	inner := build(ctx, prefix)
 	m := map[string]Fault{}
 	for _, e := range sched {
 		m[e.Call.key()] = e.Fault
 	}
 	fs := newFStore(inner, m)
-	runtime.GC()
 	before := runtime.NumGoroutine()
 	t0 := time.Now()
-	r := Execute(ctx, fs, s.Text, bulk)
+	var top storage.Store = fs
+	if memo {
+		top = memoization.New(fs)
+	}
+	r := Execute(ctx, top, s.Text, bulk)
 	ms := time.Since(t0).Milliseconds()
 	left := settle(before)
 	fs.mu.Lock()
 	calls := append([]Call{}, fs.log...)
 	fs.mu.Unlock()
 	return Run{Bulk: bulk, Prefix: prefix, Stmt: s, Sched: sched, Class: r.Class, Err: r.Err, Calls: calls,
-		After: Listing(ctx, inner, b), GorDiff: left, Millis: ms}
+		After: Listing(ctx, inner, b), GorDiff: left, Millis: ms, Memo: memo}
 }
 
 // one statement per driver entry point the planner can reach (the shapes of simpleFetch / simpleExist, the
@@ -336,6 +353,7 @@ func main() {
 	seed := flag.Int64("seed", 1, "PRNG seed")
 	n := flag.Int("n", 40, "number of statements")
 	only := flag.String("only", "", "run only this statement text (replay), over the standard prefix")
+	maxIDs := flag.Int("maxids", 0, "inject at most this many of the calls a statement makes, evenly spread (0 = all)")
 	deep := flag.Bool("deep", false, "also inject: failure after 2 elements, failure after 0 elements of a write")
 	flag.Parse()
 	ctx := context.Background()
@@ -343,7 +361,7 @@ func main() {
 	defer w.Flush()
 	enc := json.NewEncoder(w)
 	rnd := rand.New(rand.NewSource(*seed))
-	modes := []Fault{{Mode: "before"}, {Mode: "after", J: 1}, {Mode: "write"}}
+	modes := []Fault{{Mode: "before"}, {Mode: "after", J: 1}, {Mode: "write"}, {Mode: "late", J: 1}}
 	if *deep {
 		modes = append(modes, Fault{Mode: "after", J: 2}, Fault{Mode: "after", J: 0})
 	}
@@ -363,6 +381,7 @@ func main() {
 			prefix = append(prefix, "INSERT DATA INTO "+gr+" { "+strings.Join(tt, " . ")+" };")
 		}
 		var s VStmt
+		fixedBulk := 0
 		switch {
 		case *only == "" && i < len(coverage):
 			prefix = append(prefix, coverageData)
@@ -373,6 +392,29 @@ func main() {
 			s = pool[i-len(coverage)]
 		case *only == "" && i == len(coverage)+len(pool):
 			s = VStmt{Kind: "show", Text: "SHOW GRAPHS;"}
+		case *only == "" && i <= len(coverage)+len(pool)+3:
+			// INSERT / DELETE of 5-7 triples executed with bulk size 1 or 2: were the data written in bulks, every
+			// write call but the last could fail unnoticed
+			k := i - len(coverage) - len(pool)
+			var ts []VTriple
+			var tt []string
+			for len(ts) < 4+k {
+				t := g.DataTriple()
+				dup := false
+				for _, x := range tt {
+					dup = dup || x == b.TripleText(t)
+				}
+				if !dup {
+					ts = append(ts, t)
+					tt = append(tt, b.TripleText(t))
+				}
+			}
+			kind, kw, gs := "insert", "INSERT DATA INTO ", []string{"?a", "?c"}
+			if k == 3 {
+				kind, kw, gs = "delete", "DELETE DATA FROM ", []string{"?a"}
+			}
+			s = VStmt{Kind: kind, Gs: gs, Ts: ts, Text: kw + strings.Join(gs, ", ") + " { " + strings.Join(tt, " . ") + " };"}
+			fixedBulk = []int{0, 1, 2, 2}[k]
 		case *only != "":
 			s = VStmt{Kind: "text", Text: *only}
 		case i%10 == 5:
@@ -389,6 +431,9 @@ func main() {
 			}
 		}
 		bulk := bulks[rnd.Intn(len(bulks))]
+		if fixedBulk > 0 {
+			bulk = fixedBulk
+		}
 		base := build(ctx, prefix)
 		if s.Kind == "construct" || (s.Kind == "select" && s.Note != "") {
 			s.Q = g.QueryHaving(ctx, base, s.Ins, s.WB, s.Note, s.Hav)
@@ -414,11 +459,21 @@ func main() {
 		}
 		m.Reads = reads
 		enc.Encode(m)
+		if *maxIDs > 0 && len(ids) > *maxIDs {
+			var pick []Call
+			for k := 0; k < *maxIDs; k++ {
+				pick = append(pick, ids[k*len(ids) / *maxIDs])
+			}
+			ids = pick
+		}
 		if m.Class == "reject" {
 			continue
 		}
 		for _, id := range ids {
 			for _, f := range modes {
+				if f.Mode == "late" && (id.Kind == "graph" || id.Kind == "newgraph" || id.Kind == "deletegraph") {
+					continue // nothing is streamed or partially applied there: same as "before"
+				}
 				r := oneRun(ctx, prefix, s, bulk, []SchedEntry{{id, f}}, b)
 				r.Case, r.Prev, r.Reads = i, prev, reads
 				enc.Encode(r)
@@ -432,6 +487,27 @@ func main() {
 			r := oneRun(ctx, prefix, s, bulk, []SchedEntry{{a, modes[rnd.Intn(len(modes))]}, {c, modes[rnd.Intn(len(modes))]}}, b)
 			r.Case, r.Prev, r.Reads = i, prev, reads
 			enc.Encode(r)
+		}
+		// the same statement through the memoizing store on top of the failing driver (joins: several lookups in flight)
+		if s.Kind == "select" && strings.Contains(s.Text, " . ") {
+			mm := oneRunOn(ctx, prefix, s, bulk, nil, b, true)
+			mm.Case, mm.Prev, mm.Reads = i, prev, reads
+			enc.Encode(mm)
+			mseen := map[string]bool{}
+			for _, c := range mm.Calls {
+				if mseen[c.key()] {
+					continue
+				}
+				mseen[c.key()] = true
+				for _, f := range modes {
+					if c.Kind == "graph" && f.Mode != "before" {
+						continue
+					}
+					r := oneRunOn(ctx, prefix, s, bulk, []SchedEntry{{c, f}}, b, true)
+					r.Case, r.Prev, r.Reads = i, prev, reads
+					enc.Encode(r)
+				}
+			}
 		}
 		if *only != "" {
 			break
